@@ -329,7 +329,7 @@ func cmdGen(args []string) int {
 		}
 		got := tr.M{"exit": f.exit, "crashed": f.crashed, "timed_out": f.timedOut, "nfiles": len(f.files), "pkgname": f.pkgname,
 			"deterministic": f.deterministic, "builds": f.builds, "ran": f.ran, "name": f.name,
-			"desc_equal": f.ran && strings.TrimRight(f.desc, "\n") == strings.TrimRight(texts[i], "\n"),
+			"desc_equal":      f.ran && strings.TrimRight(f.desc, "\n") == strings.TrimRight(texts[i], "\n"),
 			"failing_members": failingMembers, "detail": firstLine(f.stderr + f.buildErr)}
 		ev := tr.M{"desc": json.RawMessage(mustField(c.raw, "desc")), "toks": c.Toks, "namechars": chars, "got": got}
 		log.Ev("C07", ev)
